@@ -2,7 +2,7 @@
   1. rebuild pigeon + hosts from /repo, 2. build + audit the Lean property module,
   3. correspondence streams (model vs implementation on the property's projection) + direct oracles
      + twin relations, 4. shrink and report, 5. known findings, 6. evidence."""
-import json, os, time, hashlib
+import subprocess, json, os, time, hashlib
 from . import core, h1, findings
 from .core import log
 from .props_h1 import TRUSTED
@@ -59,6 +59,15 @@ def run(prop, cfg, tier, seed):
                         alll.append(tl)
                         twin_pairs.append((cl, tl, rel))
             h1.run_stream(wd, header, alll, cfg["proj"], cfg.get("oracles"), sr, tag, spec_fields=cfg.get("spec_fields"))
+            if cfg.get("lrwf"):
+                # how many of the generated cases meet the hypothesis of the termination theorem (decided by the
+                # kernel-proved checker, on the case's own leader marks)?
+                try:
+                    acc = core.run_lrwf_lines(header, lines[:20000])
+                    sr.stats["lrwf_asked"] = sr.stats.get("lrwf_asked", 0) + len(acc)
+                    sr.stats["lrwf_accepted_by_proved_checker"] = sr.stats.get("lrwf_accepted_by_proved_checker", 0) + sum(1 for v in acc.values() if v)
+                except Exception as e:
+                    log("lrwf query failed: %s" % e)
 
     # corpus (minimised past failures) runs too
     corpus = findings.corpus_cases(prop)
@@ -120,6 +129,27 @@ def run(prop, cfg, tier, seed):
         tool_fail_total = r.get("failure_count", 0)
         if tool_fail_total > len(r.get("failures") or []):
             tool_fail += [None] * (tool_fail_total - len(r["failures"]))
+
+    # ---- the analysis the runtime relies on (C08): the builder's leader marks must cover every cycle of its first graph
+    if cfg.get("mid_leaders"):
+        from . import mid_check
+        nq_m, nt_m = cfg["mid_leaders"]
+        mcases = mid_check.gen_mid(seed, nq_m if tier == "quick" else nt_m)
+        mcases = [" ".join(["mid", str(i + 1)] + c.split(" ")[2:]) for i, c in enumerate(mcases)]
+        pm = subprocess.run([mid_check.PVMID, "-run"], input=("\n".join(mcases) + "\n").encode(), stdout=subprocess.PIPE, stderr=subprocess.PIPE, timeout=1800)
+        if pm.returncode != 0:
+            raise RuntimeError("pvmid -run failed: " + pm.stderr.decode()[-2000:])
+        mimpl = pm.stdout.decode().splitlines()
+        accepted_lr = 0
+        for cl, il in zip(mcases, mimpl):
+            if il.split(" ", 3)[2:3] == ["ok1"]:
+                accepted_lr += 1
+            cyc = mid_check.uncovered_cycle(il)
+            if cyc:
+                tool_fail.append({"tool": "pvmid", "kind": "cycle-without-leader", "mid_case": cl, "impl": il,
+                                  "detail": "builder.PrepareGrammar accepts this grammar with -support-left-recursion although the cycle %s of its first graph passes through no leader rule: the generated parser re-enters these rules at the same offset without bound (C08_cycle_without_leader_has_no_ranking; with every cycle covered: C08_left_recursive_parse_terminates)" % " -> ".join(bytes.fromhex(x[1:]).decode("utf8", "replace") for x in cyc),
+                                  "replay_cmd": "echo '<mid_case>' | /verif/build/bin/pvmid -run"})
+        tool_reports["pvmid-leaders"] = {"evaluations": len(mcases), "accepted_left_recursive": accepted_lr}
 
     # ---- report
     nviol = 0
@@ -235,6 +265,9 @@ def run(prop, cfg, tier, seed):
         "divergences_outside_this_property_projection": sr.unattributed,
         "twin_pairs_checked": twin_checked,
         "cases_compared_with_independent_specification": sr.stats.get("spec_compared", 0),
+        "termination_theorem_hypothesis": {"cases_asked": sr.stats.get("lrwf_asked", 0),
+                                           "accepted_by_proved_checker": sr.stats.get("lrwf_accepted_by_proved_checker", 0)} if cfg.get("lrwf") else None,
+        "timeouts_on_expensive_cases": sr.stats.get("timeouts_on_expensive_cases", 0),
         "known_finding_hits": sr.known,
         "result_kinds": sr.kinds,
         "streams": [{"profile": p, "n_per_seed": (nq if tier == "quick" else max(nq, nt // len(seeds))), "seeds": seeds} for (p, nq, nt) in cfg["streams"]],
